@@ -22,6 +22,25 @@ def invalid_utf8_query(rng: random.Random) -> bytes:
     return bytes([0x12, 0x34, 0, 0, 0, 2, 0, 0, 0, 0, 0, 0]) + q1 + q2
 
 
+def invalid_utf8_response(rng: random.Random, type_: str) -> bytes:
+    """A well-formed response whose records carry names with a label of invalid UTF-8 octets (DNS labels are arbitrary octets):
+    a pointer for a browsed type whose instance label cannot be written back once decoded with replacement characters, and / or an
+    SRV record with such a target."""
+    n = rng.choice([10, 21, 22, 40, 63])
+    lab = bytes([n]) + bytes(rng.choice([0xFF, 0xC0, 0xE2, 0x80]) for _ in range(n))
+    inst = lab + wire.enc_name(type_)
+    recs = []
+    if rng.random() < 0.8:
+        recs.append(wire.enc_name(type_) + bytes([0, 12, 0, 1]) + (4500).to_bytes(4, 'big') + len(inst).to_bytes(2, 'big') + inst)
+    if rng.random() < 0.5:
+        tgt = lab + wire.enc_name('local.')
+        rd = bytes([0, 0, 0, 0, 0, 80]) + tgt
+        recs.append(inst + bytes([0, 33, 0x80, 1]) + (120).to_bytes(4, 'big') + len(rd).to_bytes(2, 'big') + rd)
+    if not recs:
+        recs.append(wire.enc_name(type_) + bytes([0, 12, 0, 1]) + (4500).to_bytes(4, 'big') + len(inst).to_bytes(2, 'big') + inst)
+    return bytes([0, 0, 0x84, 0, 0, 0, 0, len(recs), 0, 0, 0, 0]) + b''.join(recs)
+
+
 def gen_c15(rng: random.Random, sid: str, thorough: bool) -> dict:
     from props import c02
     base = rf.gen_resp(rng, sid, 'c12', thorough)
@@ -67,8 +86,10 @@ def gen_c15(rng: random.Random, sid: str, thorough: bool) -> dict:
             data = rng.randbytes(rng.choice([0, 1, 11, 12, 13, 40, 200, 1500]))
         elif r < 0.62:
             data = c02.hostile(rng)
-        elif r < 0.7:
+        elif r < 0.66:
             data = invalid_utf8_query(rng)
+        elif r < 0.7:
+            data = invalid_utf8_response(rng, rng.choice([REMOTE_T, svcs[0]['type']]))
         elif r < 0.76:
             big = rng.choice(valid)
             data = big + rng.randbytes(rng.choice([8967, 9000, 20000]) - len(big)) if rng.random() < 0.7 else rng.randbytes(8967)
